@@ -358,15 +358,21 @@ def g_split(k, splits=SPLITS):
         exp = R.exp_split(k.ids, k.shape, k.fm, d)
         for kind, args in splits:
             for rel in (False, True):
-                for how in ("depth", "rankid"):
-                    if how == "rankid" and (rel or args[0] in (2, [0, 2], [2, 1])):
+                for how in ("depth", "rankid", "both"):
+                    if how != "depth" and (rel or args[0] in (2, [0, 2], [2, 1])):
                         continue        # addressing by name: one parameter choice per kind
                     feats = set()
                     if how == "rankid":
                         feats.add("by_rankid")
+                    if how == "both":
+                        # rankid= together with a depth= naming another rank: rankid is
+                        # documented to override depth (Fiber.splitUniform & co., "overrides the `depth` argument")
+                        feats.add("by_rankid_and_other_depth")
                     if rel:
                         feats.add("relativeCoords")
                     kw = {"depth": d} if how == "depth" else {"rankid": k.ids[d]}
+                    if how == "both":
+                        kw["depth"] = (d + 1) % D
                     if rel:
                         kw["relativeCoords"] = True
                     k.par = "%s %s" % (args[0], kw)
